@@ -18,8 +18,10 @@ structure DState where
   down : List Key            -- backends that refuse connections
   keys : List (List Key)     -- per holder (configuration generation or loop iteration): its upstream keys
   iters : List (Nat × CfgId) -- dynamic upstreams: request → the holder of its loop iteration (latest first)
+  aged : List Nat            -- requests that were already parked while a slow answer (`sl`) was being waited for:
+                             -- their own round trip has taken longer than unhealthy_latency, whatever comes
 
-def dinit : DState := { s := init, cur := none, down := [], keys := [], iters := [] }
+def dinit : DState := { s := init, cur := none, down := [], keys := [], iters := [], aged := [] }
 
 def stores (s : State) (c : CfgId) : List Key → Option State
   | [] => some s
@@ -115,6 +117,12 @@ def advance : Nat → DState → Nat → Option (State × String)
 
 def fuel0 : Nat := 12
 
+/-- reverseproxy.go:915-929 — the `countFailure` calls for an answer with status `code`: one per
+    matching unhealthy_status entry, one more if the round trip took at least unhealthy_latency
+    (only the answer `sl` is that slow) -/
+def strikesFor (p : Params) (what : String) (code : Nat) (aged : Bool := false) : Nat :=
+  if p.counting then strikeCount p.badStatus code + (if (what == "sl" || aged) && p.latency then 1 else 0) else 0
+
 /-- the steps of a schedule (see harness/internal/c09/c09.go for the wire syntax) -/
 inductive SStep
   | load (ks : List Key) (p : Params)
@@ -129,11 +137,12 @@ inductive SStep
   deriving Repr
 
 def noParams : Params :=
-  { passive := false, failDur := 0, maxFails := 1, retries := 0, maxReq := 0, firstMax := 0, badStatus := [], dynamic := false }
+  { passive := false, failDur := 0, maxFails := 1, retries := 0, maxReq := 0, firstMax := 0, badStatus := [], latency := false, dynamic := false }
 
 /-- the status code behind an answer token of the wire syntax (`none` = not a complete answer) -/
 def answerStatus : String → Option Nat
   | "ok" => some 200
+  | "sl" => some 200    -- 200, but only after longer than unhealthy_latency
   | "e5" => some 500
   | "c404" => some 404
   | "c429" => some 429
@@ -148,6 +157,16 @@ def isParked (s : State) (r : Nat) : Bool :=
   match pcOf s r with
   | some (.sending _) => true
   | _ => false
+
+/-- the `aged` set after a step: a slow answer ages everybody else who is parked; a request that
+    was moved starts afresh (it returned, or a new round trip began) -/
+def agedAfter (d : DState) : SStep → List Nat
+  | .answer r what =>
+    if what == "sl" then
+      (d.aged.filter (· != r)) ++ (List.range d.s.reqs.length).filter (fun r' => r' != r && isParked d.s r')
+    else d.aged.filter (· != r)
+  | .abort r => d.aged.filter (· != r)
+  | _ => d.aged
 
 def tickN (s : State) : Nat → State
   | 0 => s
@@ -303,7 +322,7 @@ def sstep (d : DState) : SStep → Option (DState × String)
           match answerStatus what with
           | none => none
           | some code =>
-            match strikesN d.s r (if q.par.counting then strikeCount q.par.badStatus code else 0) with
+            match strikesN d.s r (strikesFor q.par what code (d.aged.contains r)) with
             | none => none
             | some s1 =>
               if what == "hup" || what == "pan" then
@@ -333,7 +352,7 @@ def sstep (d : DState) : SStep → Option (DState × String)
           | some code =>
             -- RoundTrip returned a response: passive status strikes first (reverseproxy.go:915-929),
             -- then response handlers / the body copy
-            match strikesN d.s r (if q.par.counting then strikeCount q.par.badStatus code else 0) with
+            match strikesN d.s r (strikesFor q.par what code (d.aged.contains r)) with
             | none => none
             | some s1 =>
               if what == "hup" || what == "pan" then (endAttempt s1 r .panic).map fun s2 => ({ d with s := s2 }, "panic")
